@@ -639,27 +639,33 @@ pub fn start_font(start: &str, tmp: &Path) -> Option<(Font, HashSet<String>)> {
 }
 
 /// (text, well-formed?)
-/// (text, well-formed?, member of the known class load-case-clash?). Trees that the checks at
-/// load must refuse are neither: should one of them load, every oracle failure counts.
-pub const STARTS: [(&str, bool, bool); 17] = [
+/// (text, loads and is well formed?, unused). The first NLOAD trees load; all others must be
+/// refused by the checks at load — should one of them load, every oracle failure counts.
+pub const NLOAD: usize = 7;
+pub const STARTS: [(&str, bool, bool); 20] = [
     ("N", true, false),
     ("6:glyphs:0=a.glif,1=A_.glif,;3:glyphs.b:0=a.glif,;", true, false),
     ("0:glyphs.a:1=x.glif,2=X_.glif,;5:glyphs:3=b.glif,;1:glyphs.A_:;", true, false),
     ("5:glyphs:;3:glyphs.A_:0=a.glif,;", true, false),
+    // default layer in the middle / last / first, three or four layers whose directories collide
+    // (ignoring case) with what new_layer / rename_layer would assign for the names a, A, a_, aa
+    ("3:glyphs.a:;5:glyphs:;4:glyphs.A_:;", true, false),
+    ("3:glyphs.a:;4:glyphs.A_:;0:glyphs.aa:;5:glyphs:;", true, false),
+    ("5:glyphs:;3:glyphs.a:;4:glyphs.a_:;", true, false),
     // refused: duplicate layer name, duplicate directory, non-default public.default, two defaults
     ("5:glyphs:;0:glyphs.a:;0:glyphs.b:;", false, false),
     ("5:glyphs:;0:glyphs.a:;1:glyphs.a:;", false, false),
     ("0:glyphs:;5:glyphs.x:;", false, false),
     ("5:glyphs:;0:glyphs:;", false, false),
-    // load, but directories / file names are equal ignoring case
-    ("5:glyphs:;0:glyphs.a:;1:glyphs.A:;", false, true),
-    ("5:glyphs:0=x.glif,1=X.glif,;", false, true),
-    ("5:glyphs:;3:glyphs.A_:;4:glyphs.a_:;", false, true),
-    // refused by the checks at load (directories / file names that are not plain, exact duplicates)
+    // refused since f6784f0: directories / file names equal ignoring case
+    ("5:glyphs:;0:glyphs.a:;1:glyphs.A:;", false, false),
+    ("5:glyphs:0=x.glif,1=X.glif,;", false, false),
+    ("5:glyphs:;3:glyphs.A_:;4:glyphs.a_:;", false, false),
+    ("5:glyphs:;0:Glyphs:;", false, false),
+    // refused: directories / file names that are not plain, exact duplicates
     ("5:glyphs:;0:..:;", false, false),
     ("5:glyphs:;0:sub/x:;", false, false),
     ("5:glyphs:;0:.:;", false, false),
-    ("5:glyphs:;0::;", false, false),
     ("5:glyphs:0=../a.glif,;", false, false),
     ("5:glyphs:0=a.glif,1=a.glif,;", false, false),
 ];
@@ -802,6 +808,11 @@ fn mixed_alphabet() -> Vec<Op> {
         NewLayer(8),
         NewLayer(0),
         NewLayer(3),
+        NewLayer(2),
+        NewLayer(10),
+        RenameLayer(4, 0, false),
+        RenameLayer(3, 1, false),
+        RenameLayer(0, 2, true),
         GetOrCreateLayer(4),
         RemoveLayer(0),
         RemoveLayer(3),
@@ -868,11 +879,11 @@ pub fn main(a: &Args) {
         TrieSpec { id: "Lw".to_string(), start: 0, alphabet: layer_alphabet_wide(), depth: 3, split: 1 },
     ];
     for s in 0..STARTS.len() {
-        specs.push(TrieSpec { id: format!("M{}", s), start: s, alphabet: mixed_alphabet(), depth: if s < 4 { 2 } else { 1 }, split: if s < 4 { 1 } else { 0 } });
+        specs.push(TrieSpec { id: format!("M{}", s), start: s, alphabet: mixed_alphabet(), depth: if s < NLOAD { 2 } else { 1 }, split: if s < NLOAD { 1 } else { 0 } });
     }
     if light {
         // C07's container part: well-formed starts, no raw entry access (those belong to C06)
-        specs.retain(|s| s.id == "M0" || s.id == "M1" || s.id == "M2");
+        specs.retain(|s| s.id == "M0" || s.id == "M2" || s.id == "M4" || s.id == "M5");
         for s in specs.iter_mut() {
             s.alphabet.retain(|o| !matches!(o, EntryOrInsert(..) | EntryRemove(..)));
         }
@@ -945,7 +956,7 @@ pub fn main(a: &Args) {
     let mut shard_no = 0usize;
     let mut hist_steps = 0u64;
     for i in 0..nrand {
-        let si = if i % 3 == 0 { 0 } else { rng.below(if light { 4 } else { 11 }) as usize };
+        let si = if i % 3 == 0 { 0 } else { rng.below(NLOAD as u64) as usize };
         let (start, wf, _) = STARTS[si];
         let mut h = match new_hist(start, wf, &tmp) {
             Some(h) => h,
